@@ -79,6 +79,19 @@ def _worker_task(arg):
             work.extend(new)
             n += 1
         res['left'] = work
+        # keep the records slim: the per-path lists of touched functions / builtin counts are merged into the batch's first record
+        # (aggregate() only ever sums them), and the decision lists are dropped for uneventful paths
+        if len(out) > 1:
+            funcs = set()
+            bi = {}
+            for r in out:
+                funcs.update(r.pop('_funcs', ()))
+                for k, v in r.pop('_builtins', {}).items():
+                    bi[k] = bi.get(k, 0) + v
+                if r.get('outcome') == 'done' and not r.get('violations'):
+                    r.pop('decisions', None)
+            out[0]['_funcs'] = sorted(funcs)
+            out[0]['_builtins'] = bi
 
     th = threading.Thread(target=body)
     th.start()
